@@ -228,6 +228,58 @@ def file_roundtrip(cnt: int, v0: bool, v1: bool, v2: bool, nothex: int, n: int) 
             sa.open = real_open
 
 
+@obligation(tier="quick", timeout=150,
+            bounds="an authorization with 0 or 1 signatures, then three add_signature calls, each with a signature the (stubbed) "
+                   "deserialiser accepts or refuses (symbolic) or that is not hex at all: a refused one raises and leaves the object "
+                   "as it was; the accepted ones are kept in call order and survive save / load",
+            examples=[(0, dict(start=0, v0=True, v1=False, v2=True, nothex=3)), (0, dict(start=1, v0=False, v1=True, v2=True, nothex=2)),
+                      (0, dict(start=0, v0=False, v1=False, v2=False, nothex=3))])
+def add_signatures(start: int, v0: bool, v1: bool, v2: bool, nothex: int) -> bool:
+    """
+    pre: 0 <= start <= 1
+    pre: 0 <= nothex <= 3
+    post: _
+    """
+    verdicts = [v0, v1, v2]
+    first = "3006020107020108"
+    stub = _EcStub({bytes.fromhex(SIGS[i]) for i in range(3) if verdicts[i]} | {bytes.fromhex(first)})
+    fs = _Files()
+    real_ec, real_open = sa.ec, sa.__dict__.get("open")
+    sa.ec = stub
+    sa.open = fs.open
+    try:
+        kept = [first] if start == 1 else []
+        auth = sa.SignerAuthorization(sa.SignerVersion(HASHES[0], 7), list(kept))
+        for i in range(3):
+            sig = "zz" if nothex == i else SIGS[i]
+            good = verdicts[i] and nothex != i
+            try:
+                auth.add_signature(sig)
+                if not good:
+                    return False           # a malformed signature was taken
+                kept.append(sig)
+            except ValueError:
+                if good:
+                    return False
+            # whatever happened, the object holds exactly the accepted signatures, in order
+            if auth.signatures != kept or auth.to_dict()["signatures"] != kept:
+                return False
+        auth.save_to_jsonfile("/x/auth.json")
+        back = sa.SignerAuthorization.from_jsonfile("/x/auth.json")
+        return back.to_dict() == auth.to_dict() and back.signatures == kept
+    except Exception as e:
+        from harness.common import reraise_control_flow, note
+        reraise_control_flow(e)
+        note("raised", type(e).__name__, str(e)[:200])
+        return False
+    finally:
+        sa.ec = real_ec
+        if real_open is None:
+            del sa.open
+        else:
+            sa.open = real_open
+
+
 # ------------------------------------------------------------------ device exchange
 
 class _Auth:
